@@ -21,6 +21,36 @@ def _h64(obj):
     return struct.unpack("<Q", hashlib.blake2b(obj, digest_size=8).digest())[0]
 
 
+class CaseTimeout(BaseException):
+    """A single case exceeded its generous wall-clock guard: inconclusive, never a verdict."""
+
+
+class _Guard:
+    def __init__(self, ctx, seconds, what):
+        self.ctx, self.seconds, self.what = ctx, seconds, what
+
+    def _fire(self, signum, frame):
+        raise CaseTimeout()
+
+    def __enter__(self):
+        import signal
+
+        self.old = signal.signal(signal.SIGALRM, self._fire)
+        signal.setitimer(signal.ITIMER_REAL, self.seconds)
+        return self
+
+    def __exit__(self, et, ev, tb):
+        import signal
+
+        signal.setitimer(signal.ITIMER_REAL, 0)
+        signal.signal(signal.SIGALRM, self.old)
+        if et is CaseTimeout:
+            self.ctx.count("case_timeouts")
+            self.ctx.inconc(f"case exceeded {self.seconds}s guard", self.what if self.what is not None else self.ctx.current_case)
+            return True
+        return False
+
+
 class Ctx:
     MAX_VIOL = 60  # violations kept with full witness per shard (all are counted)
 
@@ -59,6 +89,10 @@ class Ctx:
     def mine(self, index):
         """Deterministic work split: is item `index` this shard's?"""
         return index % self.nshards == self.shard
+
+    def guard(self, seconds=60, what=None):
+        """with ctx.guard(60): run one case; a hang becomes an inconclusive case."""
+        return _Guard(self, seconds, what)
 
     def count(self, name, n=1):
         self.counters[name] = self.counters.get(name, 0) + n
